@@ -44,6 +44,12 @@ theorem depth_guard (limit : Nat) (hl : limit ≠ 0) (d b : Nat) (t : OttoVerif.
       (if b + d + 1 < limit then OttoVerif.C18.Outcome.done else OttoVerif.C18.Outcome.rangeError) :=
   OttoVerif.C18.Thm.depth_exact limit hl d b t
 
+/-- premise of `depth_guard` about the code (regenerated fact, see C18.Thm.scope_writers_expected):
+    the scope chain head is assigned only by enterScope / leaveScope, so no route into a scope
+    (function, global, eval, native) bypasses the limit check or restarts the depth count -/
+theorem depth_guard_premise : OttoVerif.C18.Gen.scopeWriters = ["runtime.go:enterScope", "runtime.go:leaveScope"] :=
+  OttoVerif.C18.Thm.scope_writers_expected
+
 /-! Regenerated facts (go/types over the current sources of package otto) -/
 
 /-- P1: no built-in dereferences the receiver's object without converting or checking it
